@@ -580,6 +580,8 @@ STR_LEAF_ATTRS = ('s', 'u')
 BOOL_LEAF_ATTRS = ('f', 'g')
 STR_POOL = ('', 'a', 'b', 'ab', 'ba', 'abc')
 INT_POOL = (0, 1, 2, 3, 7)
+# needles / haystacks for the LIKE family: the escape character `!` and the wildcards `%` `_` must be matched literally
+LIKE_POOL = ('a', 'ab', '', '!', 'a!', '!a', 'a!b', '%', 'a%', '_', 'a_b', '!%', '!!', 'b')
 
 
 class Gen(object):
@@ -691,7 +693,12 @@ class Gen(object):
         if f == 'not': return ('not', self.operand(d - 1, True))
         if f == 'like':
             kind = rng.choice(('startswith', 'endswith', 'contains'))
-            b = rng.choice((('str', rng.choice(('a', 'b', 'ab', '%', '_', 'a%', '!', ''))), self.new_param('str'), ('attr', 'u')))
+            shape = rng.choice(('literal', 'param', 'param', 'attr', 'expr'))
+            if shape == 'literal': b = ('str', rng.choice(LIKE_POOL))
+            elif shape == 'param':
+                b = self.new_param('str'); self.params[b[1]] = rng.choice(LIKE_POOL)
+            elif shape == 'attr': b = ('attr', 'u')
+            else: b = ('concat', ('attr', 'u'), ('str', rng.choice(LIKE_POOL)))
             return ('like', kind, rng.random() < 0.3, self.value('str', d - 1, True), b)
         if f == 'cmpc':
             a = self.cond(max(2, d - 1), True)
@@ -858,3 +865,61 @@ def enum_depth3(rng, base, n):
         else: e = ('arith', rng.choice(ARITH[:5]), rng.choice(ints), rng.choice(ints))
         if ty_of(e) is not None and wf(e): out.append(e)
     return out
+
+
+def like_rows():
+    """Rows whose strings contain the LIKE escape character and wildcards (used by the search tables)."""
+    out = []
+    hays = ('a!b', 'a!', '!', 'ab', 'a%b', 'a_b', 'axb', None, '', '!!', 'b!a')
+    us = ('!', 'a!', 'a', '%', '_', 'b')
+    for k, s_ in enumerate(hays):
+        out.append({'a': k, 'b': None, 'r': k, 's': s_, 'u': us[k % len(us)], 'f': None, 'g': bool(k % 2)})
+    return out
+
+
+def like_sweep():
+    """Small exhaustive scope for StringMixin._like: kind x negation x needle shape x needle value (haystack = p.s)."""
+    out = []
+    for kind in ('startswith', 'endswith', 'contains'):
+        for neg in (False, True):
+            for v in ('!', 'a!', '!a', 'a!b', '%', 'a%', '_', 'a_b', 'a', ''):
+                out.append((('like', kind, neg, ('attr', 's'), ('str', v)), {}))
+                out.append((('like', kind, neg, ('attr', 's'), ('param', 0, 'str')), {0: v}))
+                out.append((('like', kind, neg, ('attr', 's'), ('concat', ('attr', 'u'), ('str', v))), {}))
+                out.append((('like', kind, neg, ('attr', 's'), ('concat', ('param', 0, 'str'), ('attr', 'u'))), {0: v}))
+            out.append((('like', kind, neg, ('attr', 's'), ('attr', 'u')), {}))
+    return out
+
+
+# ---------------------------------------------------------------------------------------------- LIKE family (Model/C01Like.v)
+
+_LK = {'startswith': 'KStarts', 'endswith': 'KEnds', 'contains': 'KContains'}
+
+
+def lx_hay(x):
+    if x[0] == 'COALESCE' and len(x) == 3 and x[2] == ['VALUE', '']: return '(LCoalesceEmpty (LX %s))' % qx(x[1])
+    return '(LX %s)' % qx(x)
+
+
+def lx_pat(x):
+    if x[0] == 'VALUE' and isinstance(x[1], str): return '(LLit %s)' % cstr(x[1])
+    if x[0] == 'REPLACE' and len(x) == 4 and x[2][0] == 'VALUE' and x[3][0] == 'VALUE' and isinstance(x[2][1], str) and len(x[2][1]) == 1:
+        inner = lx_pat(x[1]) if x[1][0] == 'REPLACE' else '(LX %s)' % qx(x[1])
+        return '(LReplace %s %d %s)' % (inner, ord(x[2][1]), cstr(x[3][1]))
+    if x[0] == 'CONCAT': return '(LConcat [%s])' % '; '.join(lx_pat(y) for y in x[1:])
+    raise Unmodelled('LIKE pattern %r' % (x[0],))
+
+
+def lcond(x):
+    """The condition StringMixin._like produced (Pony's list AST) -> Coq term of type lcond."""
+    if x[0] == 'OR' and len(x) == 3 and x[2][0] == 'IS_NULL':
+        return '(LOrNull %s %s)' % (lcond(x[1]), lx_hay(x[2][1]))
+    if x[0] in ('LIKE', 'NOT_LIKE') and len(x) in (3, 4):
+        if len(x) == 4 and x[3] != ['VALUE', '!']: raise Unmodelled('ESCAPE %r' % (x[3],))
+        return '(LLike %s %s %s %s)' % ('true' if x[0] == 'NOT_LIKE' else 'false', lx_hay(x[1]), lx_pat(x[2]), 'true' if len(x) == 4 else 'false')
+    raise Unmodelled('LIKE condition %r' % (x[0],))
+
+
+def like_model_term(prov, e, nullable=None):
+    """Coq term `like_of d k neg hay needle` for a tree ('like', kind, neg, hay, needle)."""
+    return '(like_of %s %s %s %s %s)' % (DN[prov], _LK[e[1]], 'true' if e[2] else 'false', coq(e[3], nullable), coq(e[4], nullable))
